@@ -76,6 +76,9 @@ def child_main(a):
         probe.attach(ctx, getattr(mod, 'PROBES', 'default'))
         run_cases(mod, ctx)
         ctx.notes['probe_evals'] = dict(probe.evaluations)
+        from pmon.gen import models as _models
+        if _models.AMR_SOURCE[0] != 'not loaded':
+            ctx.notes['amr_reference_inventory_from'] = _models.AMR_SOURCE[0]
     except Exception:
         ctx.inconclusive_because('harness-crash: ' + traceback.format_exc()[-1500:])
     res = ctx.result()
